@@ -117,6 +117,65 @@ def build(inp, rng):
     return model, vals, data, alpha
 
 
+def many_parameters(ctx, rng):
+    """more parameters than one digit counts: three spheres with everything free, alpha and the noise too
+    (17 parameters); posterior against the density written out on a scatterer built by hand"""
+    det = hp.detector_grid(6, 0.5)
+    lo = dict(n=1.4, r=0.3, x=0.0, y=0.0, z=4.0)
+    hi = dict(n=1.7, r=0.7, x=6.0, y=6.0, z=9.0)
+    base = [(1.0, 1.2, 5.0), (3.4, 1.1, 6.0), (2.0, 3.6, 7.0)]
+    for trial in range(3):
+        members, truth = [], {}
+        for i, c in enumerate(base):
+            pri = {k: (prior.Uniform(lo[k], hi[k]) if (k != "r" or trial != 1) else prior.Gaussian(0.5, 0.1)) for k in lo}
+            members.append(Sphere(n=pri["n"], r=pri["r"], center=(pri["x"], pri["y"], pri["z"])))
+            truth[i] = dict(n=rng.uniform(1.45, 1.65), r=rng.uniform(0.35, 0.6), x=c[0] + rng.uniform(-0.2, 0.2),
+                            y=c[1] + rng.uniform(-0.2, 0.2), z=c[2] + rng.uniform(-0.3, 0.3))
+        model = AlphaModel(Spheres(members, warn=False), alpha=prior.Uniform(0.5, 1.0), noise_sd=prior.Uniform(0.01, 0.2),
+                           medium_index=1.33, illum_wavelen=0.66, illum_polarization=(1, 0), theory=Mie())
+        names = list(model.parameters)
+        ctx.case(("many_parameters", trial, len(names)), nontrivial=True)
+        if len(names) != 17:
+            ctx.violation("many_parameters/names", {"names": names})
+            continue
+        vals, lnprior = {}, 0.0
+        for nm, p in model.parameters.items():
+            if nm == "alpha":
+                v = 0.83
+            elif nm == "noise_sd":
+                v = 0.06
+            else:
+                i, k = nm.split(":")
+                k = k.replace("center.0", "x").replace("center.1", "y").replace("center.2", "z")
+                v = truth[int(i)][k]
+            vals[nm] = v
+            lnprior += p.lnprob(v)
+        hand = Spheres([Sphere(n=truth[i]["n"], r=truth[i]["r"], center=(truth[i]["x"], truth[i]["y"], truth[i]["z"]))
+                        for i in range(3)], warn=False)
+        data = _orig_calc_holo(det, Spheres([Sphere(n=1.5, r=0.5, center=c) for c in base], warn=False), medium_index=1.33,
+                               illum_wavelen=0.66, illum_polarization=(1, 0), theory=Mie())
+        data = data + 0.02 * np.sin(np.arange(data.size)).reshape(data.shape)
+        f = _orig_calc_holo(data, hand, medium_index=1.33, illum_wavelen=0.66, illum_polarization=(1, 0), theory=Mie(), scaling=0.83)
+        resid = (np.asarray(f.values, dtype=float) - np.asarray(data.values, dtype=float)).ravel()
+        N, sigma = resid.size, 0.06
+        expect = lnprior - N / 2 * math.log(2 * math.pi) - N * math.log(sigma) - 0.5 * float(np.sum((resid / sigma) ** 2))
+        try:
+            got_d = model.lnposterior(dict(vals), data)
+            got_l = model.lnposterior([vals[nm] for nm in names], data)
+            built = model.scatterer_from_parameters(vals)
+        except Exception as e:
+            ctx.violation("many_parameters/exception", {"trial": trial, "exc": repr(e)[:200]})
+            continue
+        same = len(built.scatterers) == 3 and all(
+            b_.n == h_.n and b_.r == h_.r and tuple(float(c_) for c_ in b_.center) == tuple(h_.center)
+            for b_, h_ in zip(built.scatterers, hand.scatterers))
+        if not same or abs(got_d - expect) > 1e-9 * max(1, abs(expect)) or abs(got_l - expect) > 1e-9 * max(1, abs(expect)):
+            ctx.violation("many_parameters/%s" % ("scatterer" if not same else "posterior"),
+                          {"trial": trial, "impl_dict": float(got_d), "impl_list": float(got_l), "oracle": expect, "names": names})
+        else:
+            ctx.trace_ok()
+
+
 def reuse_rounds(ctx, rng):
     """Posterior_reuse.cfg: the same model evaluated twice, the second time with a fresh container or
     with the first container changed in place; round 2 must be what a new model gives for those values."""
@@ -241,6 +300,12 @@ def run(ctx):
             except Exception as e:
                 ctx.violation("build/exception", {"inp": inp, "exc": repr(e)})
                 continue
+            # the model exposes the parameters of ITS priors and nothing else (whatever was built before it)
+            names = list(model.parameters)
+            n_expected = 2 + (inp["kind"] == "alpha_prior") + (inp["mnoise"] == "prior")
+            if len(names) != n_expected or (("alpha" in names) != (inp["kind"] == "alpha_prior")):
+                ctx.violation("parameters/names", {"inp": inp, "names": names, "expected_count": n_expected})
+                continue
             keep = data.copy(deep=True)
             pixels = 12 if inp["pixels"] else None
             COUNT["n"] = 0
@@ -305,6 +370,7 @@ def run(ctx):
         model_module.calc_holo = _orig_calc_holo
     ctx.notes["outcome_classes_replayed"] = classes
     reuse_rounds(ctx, rng)
+    many_parameters(ctx, rng)
     ctx.sample({"inputs": dict(inp), "spec_final": {k: fin[k] for k in
                                                     ("result", "forwardCalls", "noiseFrom", "miFrom", "lnprior")}})
     # per-channel noise (two illumination channels): Gaussian density with channel-wise sigma
